@@ -156,6 +156,37 @@ def _iterator_exhausted(f, bb, ty):
     return bool(none_edges) and bb not in f.reachable([0], removed_edges=none_edges)
 
 
+def _known_none(f, bb, ty):
+    """an Option local dropped where it is known to be None (`if received.is_none() { ..; return Pending }`): the drop is reachable only
+    through the true edge of is_none() (false edge of is_some()) on that very local, or the None arm of a match on it"""
+    if not ty.startswith('core::option::Option<'):
+        return False
+    t = f.blocks[bb]['t']
+    place = t.get('d') if t['k'] == 'drop' else None
+    if place is None or place.get('p'):
+        return False
+    loc = place['l']
+    edges = []
+    for cb, ct in f.calls('core::option::Option::is_none', 'core::option::Option::is_some'):
+        src = origins(f, ct['args'][0])
+        if not src or not all(o.kind == 'rvalue' and o.stmt['rv']['k'] == 'ref' and o.stmt['rv']['a'].get('l') == loc and not o.stmt['rv']['a'].get('p') for o in src):
+            # origins() looks through the borrow: compare with the origins of the local itself
+            mine = set((o.kind, getattr(o, 'bb', None), tuple(o.suffix or [])) for o in origins(f, {'l': loc, 'p': []}))
+            theirs = set((o.kind, getattr(o, 'bb', None), tuple(o.suffix or [])) for o in src)
+            if not mine or mine != theirs:
+                continue
+        res = ct['d']['l']
+        for sb, st in f.terms('switch'):
+            if any(o.kind == 'call' and o.bb == cb and not o.suffix for o in origins(f, st['a'])):
+                zero = [(sb, b2) for v, b2 in st['arms'] if v == 0]
+                edges += [(sb, st['otherwise'])] if last_seg(ct['callee']) == 'is_none' else zero
+    for sb, st in f.terms('switch'):
+        for o in origins(f, st['a']):
+            if o.kind == 'rvalue' and o.stmt['rv']['k'] == 'discr' and o.stmt['rv']['a'].get('l') == loc and not o.stmt['rv']['a'].get('p'):
+                edges += [(sb, b2) for v, b2 in st['arms'] if v == 0]
+    return bool(edges) and bb not in f.reachable([0], removed_edges=edges)
+
+
 def check_linear(rep, crate, cfg, rid='R01.c', only=None):
     counts = {}
     table = {(_noidx(k[0]), k[1]): v for k, v in DROP_TABLE.items()}
@@ -166,6 +197,9 @@ def check_linear(rep, crate, cfg, rid='R01.c', only=None):
                 % (len(missing), sorted(missing)[:3]))
     for f, bb, ty, how in payload_drops(crate):
         if only is not None and not only(f, ty):
+            continue
+        if how == 'drop' and _known_none(f, bb, ty):
+            rep.ok(rid, '%s|drops None %s@%s' % (_noidx(f.kpath), ty, cfg), 'the Option is dropped only where it was found to be None')
             continue
         if how == 'drop' and _iterator_exhausted(f, bb, ty):
             rep.ok(rid, '%s|drops exhausted %s@%s' % (_noidx(f.kpath), ty, cfg), 'the iterator is dropped only after next() returned None')
